@@ -147,7 +147,8 @@ def case_init(case, obs) -> None:
     import mici
 
     rng = np.random.default_rng([abs(int(s)) for s in case["seed"]])
-    if int(case["seed"][-1]) % 3 == 2:
+    variant = (int(case["seed"][-1]) // 4) % 3  # init cases have index = 3 mod 4
+    if variant == 1:
         # density with a restricted domain (log barrier at |q_i| = 1): the energy is NaN once a step leaves the domain,
         # typically at a power-of-two step size at which the energy error of the previous one was still small
         dim = int(rng.integers(1, 4))
@@ -180,12 +181,24 @@ def case_init(case, obs) -> None:
         spec = {"sys": "euclidean", "target": "log-barrier", "a": a, "dim": dim}
         q = rng.uniform(-0.3, 0.3, dim)
         p = rng.standard_normal(dim) * float(rng.choice([0.05, 0.2, 0.5]))
+    elif variant == 2:
+        # constrained system on a wavy / curved manifold with the constrained integrator: trial step sizes can fail with a
+        # convergence error or a non-reversible step error - any failed step counts as "too big"
+        spec = zoo.random_sys_spec(rng, kinds=("constrained", "constrained_nh", "gaussian_constrained"), dim_range=(2, 3), metrics=("none", "diag"))
+        spec["constr"] = str(rng.choice(["sine", "sine", "sphere", "arctan_sphere"]))
+        m = zoo.Model(spec)
+        q, p = m.random_point(rng, scale=float(rng.choice([1.0, 2.0, 3.0])))
     else:
         spec = zoo.random_sys_spec(rng, kinds=("euclidean", "gaussian"), dim_range=(1, 5))
         m = zoo.Model(spec)
         q, p = m.random_point(rng, scale=float(rng.choice([0.2, 1.0, 3.0])))
-    kind = str(rng.choice(["leapfrog", "bcss2", "bcss3"]))
-    integ = zoo.make_integrator(m, {"int": kind, "step_size": 0.123})
+    if getattr(m, "constrained", False):
+        kind = "constrained"
+        ispec0 = {"int": "constrained", "solver": str(rng.choice(["newton", "quasi_newton"])), "n_inner_step": 1}
+    else:
+        kind = str(rng.choice(["leapfrog", "bcss2", "bcss3"]))
+        ispec0 = {"int": kind}
+    integ = zoo.make_integrator(m, dict(ispec0, step_size=0.123))
     adapter = mici.adapters.DualAveragingStepSizeAdapter()
     st = m.state(q, p)
     before = (st.pos.copy(), st.mom.copy())
@@ -197,8 +210,13 @@ def case_init(case, obs) -> None:
     h0 = m.ref_h(q, p)
 
     def dh(e):
-        ii = zoo.make_integrator(m, {"int": kind, "step_size": e})
-        s2 = ii.step(m.state(q, p))
+        from mici.errors import IntegratorError
+
+        ii = zoo.make_integrator(m, dict(ispec0, step_size=e))
+        try:
+            s2 = ii.step(m.state(q, p))
+        except IntegratorError:
+            return math.inf  # a step that fails loudly is "too big"
         v = abs(h0 - m.ref_h(s2.pos, s2.mom))
         return math.inf if math.isnan(v) else v
 
